@@ -259,6 +259,22 @@ def check(case):
     return v
 
 
+def _requery(x, u, w, near=None):
+    """value(w), then the in-place to(w), then value(w) and value(u) again on the same object: every query answers for
+    the units the object has at that moment -> None or a description of the disagreement"""
+    from scinumtools.units import Quantity
+    q = Quantity(x, u)
+    a1 = float(q.value(w))
+    q.to(w)
+    a2, a3 = float(q.value(w)), float(q.value(u))
+    near = near or (lambda p_, r_, un: abs(p_ - r_) <= 1e-9 * max(abs(p_), abs(r_)) + 1e-9)
+    if not near(a2, a1, w):
+        return f"q = Quantity({x!r},{u!r}): q.value({w!r}) = {a1!r}; after q.to({w!r}) the same query gives {a2!r}"
+    if not near(a3, x, u):
+        return f"q = Quantity({x!r},{u!r}): after q.value({w!r}) and q.to({w!r}), q.value({u!r}) = {a3!r}"
+    return None
+
+
 def _check(case, v):
     from scinumtools.units import Quantity
     kind, u, w = case["pair"]
@@ -288,6 +304,14 @@ def _check(case, v):
             bk = to_kelvin(float(back.value()), u)
             if not abs(bk - exp_k) <= tol:
                 return v.fail("temp-roundtrip", f"{x!r} {u} -> {w} -> {u} = {back.value()!r}")
+            if abs(x) < 1e7:
+                try:
+                    # (temperatures are compared in kelvin with the tolerance of this case)
+                    msg = _requery(x, u, w, near=lambda p_, r_, un: abs(to_kelvin(p_, un) - to_kelvin(r_, un)) <= tol)
+                except Exception as e:
+                    return v.fail("temp-raised", f"value/to/value on one object, {u} and {w}: {e!r}")
+                if msg:
+                    return v.fail("query-after-conversion", msg)
         if _array_pass(v, u, w, [from_kelvin(t_, u) for t_ in case["vals"]], case.get("err")):
             return
         v.nt(u != w or u in ("Cel", "degF"))
@@ -397,6 +421,13 @@ def _check(case, v):
             return v.fail("log-raised", f"{u}->{w}->{u} raised {e!r}")
         if not lclose(float(back.value()), x):
             return v.fail("log-roundtrip", f"{x!r} {u} -> {w} -> {u} = {back.value()!r}")
+        if 1e-6 < abs(x) < 1e6:
+            try:
+                msg = _requery(x, u, w)
+            except Exception as e:
+                msg = None          # (conversions that are refused are judged above)
+            if msg:
+                return v.fail("query-after-conversion", msg)
         xs_.append(x)
     if _array_pass(v, u, w, xs_, case.get("err")):
         return
